@@ -62,14 +62,17 @@ structure Impl (K V : Type) where
   /-- `NewBinomial(cmp, eqV)` / `NewFibonacci(cmp, eqV)` -/
   init : σ
   step : σ → Op K V → Outcome (σ × Out K V)
-  /-- `h.Merge(hh)` -/
-  merge : σ → σ → Outcome σ
+  /-- `h.Merge(hh)` for two different heaps: the receiver and the operand after the call -/
+  merge : σ → σ → Outcome (σ × σ)
 
 def update {α : Type} (f : Nat → α) (i : Nat) (a : α) : Nat → α := fun j => if j = i then a else f j
 
 def Impl.mstep (I : Impl K V) (regs : Nat → I.σ) : MOp K V → Outcome ((Nat → I.σ) × Out K V)
   | .on r op => obind (I.step (regs r) op) fun p => .ok (update regs r p.1, p.2)
-  | .merge d s => obind (I.merge (regs d) (regs s)) fun h => .ok (update (update regs d h) s I.init, .unit)
+  | .merge d s =>
+    -- `hh != h`: merging a heap into itself does nothing
+    if d = s then .ok (regs, .unit)
+    else obind (I.merge (regs d) (regs s)) fun p => .ok (update (update regs d p.1) s p.2, .unit)
 
 def Impl.runFrom (I : Impl K V) : (Nat → I.σ) → List (MOp K V) → List (Outcome (Out K V))
   | _, [] => []
